@@ -4,6 +4,14 @@ import json, os, subprocess
 ROOT = os.path.dirname(os.path.dirname(os.path.abspath(__file__)))
 
 CHECKS = {
+    "C03": dict(level="model_checking", design="DESIGN.md section 5 C03",
+                technique="TLA+ reference semantics (Core.tla call actions: copy-in/copy-out, activations, statics); TLC validates recorded runs",
+                text="Call programs: 5 parameter types x 8 argument shapes (variable, array element, literal, parenthesised, expression, function call, converted, computed subscript), two-parameter copy-out order, fresh locals incl. recursion, FUNCTION results assigned 0/1/2 times, ALL call histories up to length 4/5 of a STATIC sub called directly, through another SUB, and interleaved with other subprograms, DIM SHARED and CONST identity, calls nested in argument lists in all orders, run-time errors at call depth 1-3 with call-site rows. Each recorded run is validated by TLC against Core.tla.",
+                note="Trusted: renderer, TLC. Aliased by-reference arguments are not generated (left open by the property)."),
+    "C04": dict(level="model_checking", design="DESIGN.md section 5 C04",
+                technique="TLC model checking of Store.tla (index map bijection, frame condition) + TLC validation of VArray call records and of array/record/fixed-string programs against Core.tla",
+                text="D: TLC explores the implementation-shaped index loop for every box (1-3 dimensions, lower bounds -2..2, extents 1..4) and every tuple within one step of every face, checking agreement with the lexicographic definition, bijectivity onto 0..len-1, error exactly outside the box and the write frame condition. V: the same tuples through the real VArray::abs_index / get_element_mut, validated by Trace_Store. Programs: 10 shapes x 7 element types written in two orders and read back, LBOUND/UBOUND, one out-of-range access per face, records (nested, in arrays, copied, by reference), STRING*n through six assignment routes; validated against Core.tla.",
+                note="Trusted: renderer, TLC. Subscripts beyond INTEGER not generated."),
     "C05": dict(level="model_checking", design="DESIGN.md section 5 C05",
                 technique="TLA+ reference semantics (Core.tla jump/handler actions); TLC validates recorded trace-token runs",
                 text="Programs in which every statement prints a trace token: all GOTO source/target layouts of a skeleton in main and inside a SUB, all pairs of loop kinds left by GOTO to three landing sites, all GOSUB nesting shapes up to depth 3 (also inside loops and SUBs), RETURN without GOSUB and RETURN label, and error-trap programs (failing statement kind x host block x position x handler mode, failing block headers, all orders of ON ERROR GOTO / RESUME NEXT / GOTO 0). Each recorded run is validated by TLC against Core.tla.",
